@@ -213,7 +213,7 @@ def _fam_str(f):
 # ----------------------------------------------------------------------
 def rule_st5(ctx: Ctx) -> RuleResult:
     """tee_map join table: indices written during a lifetime are reset when it ends (or begins)."""
-    r = RuleResult("ST-5", "tee_map join table: every slot written during a key lifetime is reset at creation, or at both completion and error; every store lands in the handled key's own slots")
+    r = RuleResult("ST-5", "tee_map join table: every slot written during a key lifetime is reset when the key is created (which covers a lifetime ended by an error) and never while an error passes; every store lands in the handled key's own slots")
     site = ctx.site("rxsci/operators/tee_map.py", "_process_many.subscribe_mux", kind="mux")
     specs = site.handler_specs("on_next")
     if len(specs) != 1 or not specs[0].bound:
@@ -297,16 +297,26 @@ def rule_st5(ctx: Ctx) -> RuleResult:
         # a lifetime also ends with the key's error (every other stateful operator drops the key's state on OnErrorMux, the grouping heads
         # reopen the same key index afterwards): the reset must cover that end too -- at creation (which covers every end), or at both
         # completion and error
+        # ... and not when a mux error passes: map / filter / scan emit OnErrorMux for ONE failing item of a key that stays alive (the error is
+        # dropped or replaced downstream and the key goes on), so clearing the key's slots there wipes the values the other branches hold for a
+        # lifetime that has not ended
+        for name in written:
+            for here in by_kind["Error"][name]:
+                r.ob(not here, lambda n=name, here=here: Finding(
+                    "ST-5", "%s{%s,cleared-on-error}" % (spec.qualname, n), sample_node[n].where(),
+                    "join table '%s': slots %s are cleared while a mux error of the key is handled. A mux error is the failure of one item (map, filter, scan "
+                    "emit it and the key goes on once the error is ignored or mapped downstream): the values and flags of the other branches are lost in "
+                    "the middle of a lifetime (config %s)" % (n, ", ".join(_set_str(x) for x in sorted(here, key=str)), cfg_str(cfg))))
         for name, wsets in written.items():
             for w in wsets:
                 if w[0] == "unknown" or not any(_covers(x, w) for x in reset[name]):
                     continue        # reported below
                 # ... on every path of the kind that sends the event on (a reset under a condition -- only when the tables grow -- is no reset)
                 at = {kind: bool(by_kind[kind][name]) and all(any(_covers(x, w) for x in here) for here in by_kind[kind][name]) for kind in by_kind}
-                r.ob(at["Create"] or (at["Completed"] and at["Error"]), lambda n=name, w=w, at=at: Finding(
+                r.ob(at["Create"], lambda n=name, w=w, at=at: Finding(
                     "ST-5", "%s{%s,error-end}" % (spec.qualname, n), sample_node[n].where(),
                     "join table '%s': the slots %s of a key are reset when the key completes, but not -- on every path that sends the event on -- when it "
-                    "is created, nor when its lifetime ends with an error (a window of roll closed by a mux error): the values the branches left behind are joined with the items of "
+                    "is created, so a lifetime that ended with an error (a window of roll closed by a mux error) is not covered: the values the branches left behind are joined with the items of "
                     "the next lifetime served by the same key index (config %s)" % (n, _set_str(w), cfg_str(cfg)),
                     ["written in Next: %s[%s]" % (n, show(sample_node[n].index))]))
         for name, wsets in written.items():
